@@ -57,6 +57,35 @@ func genSweep(seed uint64, prop, tier, mode string) *Plan {
 	return p
 }
 
+// genSynthSweep: repetition without history over seeded synthetic objects
+// (unusual shapes the corpus lacks: repeated attributes, several onion names, ...).
+func genSynthSweep(seed uint64, prop, tier, mode string) *Plan {
+	g := newRNG(seed)
+	idx := corpusIndex()
+	p := &Plan{Engine: "hist", Prop: prop, Seed: seed, Tier: tier, Knobs: map[string]any{"worker_mode": mode}}
+	R := 12
+	n := 14
+	if tier == "thorough" {
+		R, n = 60, 30
+	}
+	p.Knobs["repeat_R"] = R
+	for i := 0; i < n; i++ {
+		var o *ObjSpec
+		if i%4 == 3 {
+			o = synthCRL(g, idx)
+		} else {
+			o = synthCert(g, idx)
+		}
+		if o == nil {
+			continue
+		}
+		p.Objects = append(p.Objects, *o)
+		p.Ops = append(p.Ops, Op{K: "repeat", Obj: len(p.Objects) - 1, Reg: 0, R: R})
+	}
+	p.Knobs["n_objects"] = len(p.Objects)
+	return p
+}
+
 // tornTexts are the documents the torn-file sweep cuts at every offset. They are
 // the same for every run of the batch so that the offsets partition them.
 func tornTexts(meta *MetaTable) []CfgSpec {
